@@ -16,6 +16,7 @@ pub mod c20;
 pub mod c24;
 pub mod c25;
 pub mod c26;
+pub mod c27;
 pub mod c28;
 pub mod c32;
 pub mod c38;
@@ -75,6 +76,7 @@ pub fn run(prop: &str, args: &Args) -> i32 {
         "C24" => c24::run(args),
         "C25" => c25::run(args),
         "C26" => c26::run(args),
+        "C27" => c27::run(args),
         "C28" => c28::run(args),
         "C32" => c32::run(args),
         "C38" => c38::run(args),
